@@ -178,6 +178,41 @@ theorem random_ensemble (n L r : Nat) (first : List Nat) (fill lats : List (List
       exact ⟨b, a, c⟩
     · exact r3 f (inv.cover f (List.mem_range.mpr hf))
 
+theorem tot_replicate_nil (L : Nat) : tot (List.replicate L []) = 0 := by
+  induction L with
+  | zero => rfl
+  | succ L ih => simp only [tot, List.replicate_succ, List.map_cons, List.sum_cons, List.length_nil] at ih ⊢; omega
+
+/-- **C17-T2 (random ensemble), totality.** Under exactly the code's preconditions — enough
+slots (`num_features ≤ num_lattices·lattice_rank`) and `lattice_rank ≤ num_features` — and for
+every sequence of draws `np.random.choice` can produce (`ValidFirst`: an index into the non-empty
+list of non-full lattices; `ValidFill`: `rank - len(lattice)` distinct indices into the list of
+features not yet in the lattice), `set_random_lattice_ensemble` returns without error: there is
+always a non-full lattice for the next feature and always enough candidates to fill a lattice.
+With `random_ensemble` the result then has every stated property. -/
+theorem random_ensemble_total (n L r : Nat) (first : List Nat) (fill : List (List Nat))
+    (hslots : n ≤ L * r) (hrn : r ≤ n)
+    (hfirst : ValidFirst L r (List.range n) first (List.replicate L []))
+    (hfill : ∀ mid, randomFirst L r (List.range n) first (List.replicate L []) = .ok mid → ValidFill n r mid fill) :
+    ∃ lats, randomEnsemble n L r first fill = .ok lats ∧
+      lats.length = L ∧ (∀ l ∈ lats, l.length = r ∧ l.Nodup ∧ ∀ x ∈ l, x < n) ∧
+      (∀ f, f < n → ∃ l ∈ lats, f ∈ l) := by
+  obtain ⟨mid, hmid⟩ := randomFirst_total L r (List.range n) first (List.replicate L []) (by simp)
+    (by intro lat hlat; rw [(List.mem_replicate.mp hlat).2]; simp)
+    (by rw [tot_replicate_nil, List.length_range]; omega) hfirst
+  obtain ⟨out, hout⟩ := randomFill_total n r hrn mid fill (hfill mid hmid)
+  have hok : randomEnsemble n L r first fill = .ok out := by
+    unfold randomEnsemble
+    simp only [bind, Except.bind, hmid, hout]
+  exact ⟨out, hok, random_ensemble n L r first fill out hok⟩
+
+/-- non-vacuity of `random_ensemble_total`: the draws of the `random_ensemble` example are valid -/
+example : ValidFirst 3 2 (List.range 5) [0, 1, 1, 1, 0] (List.replicate 3 []) ∧
+    ValidFill 5 2 [[0, 4], [1, 2], [3]] [[], [], [2]] := by
+  constructor
+  · simp [ValidFirst, List.range_succ, List.filter_cons]
+  · simp [ValidFill, List.range_succ]
+
 /-- **C17-T3 (Crystals prefitting cover).** For every number of features, every rank ≥ 2 and
 every shuffle of the pair list (every seed), `_set_all_pairs_cover_lattices` puts every feature
 pair together in some lattice and no lattice has more than `lattice_rank` features. -/
@@ -195,14 +230,12 @@ the hypothesis of `pair_cover`). -/
 example : pairCover 2 1 [0] = [[0, 1]] := by decide
 
 
-/-- **C17-T4 (Crystals), full statement — NOT yet proved.** For every number of features `n`,
-lattice count `L` and rank `r` with `r < n ≤ L·r`, all torsions ≥ 0, every importance score > 0,
-`order` a descending sort of the scores and a non-negative empty-lattice score:
-`_get_final_crystal_lattices` returns (the `Σ uses = total` assertion holds), every lattice has
-exactly `r` features and every feature is placed, whatever the swap cap. The driver evaluates
-these hypotheses on every correspondence case; the oracle checks the conclusion on the real
-code. What is proved below: the excluded class is a real failure (`crystals_zero_score_witness`)
-and the statement is non-vacuous (`example`). -/
+/-- **C17-T4 (Crystals), full statement.** For every number of features `n`, lattice count `L`
+and rank `r` with `r < n ≤ L·r`, all torsions ≥ 0, every importance score > 0 (F-C17-a excludes
+a zero score), `order` a descending sort of the scores and a non-negative empty-lattice score:
+`_get_final_crystal_lattices` returns (both `assert`s hold), there are `L` lattices, every
+lattice has exactly `r` features and every feature is placed, whatever the swap cap. Proved
+below as `crystals_structure`. The driver evaluates the hypotheses on every correspondence case. -/
 def CrystalsSpec : Prop :=
   ∀ (n L r : Nat) (t : List (List Rat)) (lap : List Rat) (order : List Nat) (emptyScore : Rat) (fuel : Nat),
     r < n → n ≤ L * r → (∀ i j, 0 ≤ getT t i j) → 0 ≤ emptyScore →
@@ -210,6 +243,112 @@ def CrystalsSpec : Prop :=
     sortedDesc (importance n t lap) order = true →
     ∃ lats cap, crystals n L r t lap order emptyScore fuel = .ok (lats, cap) ∧ lats.length = L ∧
       (∀ l ∈ lats, l.length = r) ∧ ∀ f, f < n → ∃ l ∈ lats, f ∈ l
+
+/-- **C17-T4a (use allocation).** For `r ≤ n ≤ L·r`, positive scores and `order` a descending
+sort: the allocation loop never divides by zero, `Σ features_uses = num_lattices·lattice_rank`
+(the code's first `assert`), and every feature gets between 1 and `num_lattices` uses. -/
+theorem crystals_allocation (n L r : Nat) (scores : List Rat) (order : List Nat) (hlen : scores.length = n)
+    (h0 : 0 < n) (hrn : r ≤ n) (hn : n ≤ L * r) (hpos : ∀ s ∈ scores, 0 < s)
+    (hperm : order.Perm (List.range n)) (hso : sortedDesc scores order = true) :
+    ∃ uses, allocUses n L r scores order = .ok uses ∧ uses.length = n ∧ isum uses = ((L * r : Nat) : Int) ∧
+      ∀ f, f < n → 1 ≤ uses.getD f 0 ∧ uses.getD f 0 ≤ (L : Int) :=
+  allocUses_ok n L r scores order hlen h0 hrn hn hpos hperm hso
+
+/-- **C17-T4b (round-robin add list).** For non-negative uses the add list has `Σ uses` entries
+(the code's second `assert`), feature `f` occurs exactly `uses[f]` times and every entry is a
+feature index. -/
+theorem crystals_add_list (uses : List Int) (h0 : ∀ x ∈ uses, 0 ≤ x) :
+    ((addList uses).length : Int) = isum uses ∧
+    (∀ f, f < uses.length → ((addList uses).count f : Int) = uses.getD f 0) ∧
+    (∀ f ∈ addList uses, f < uses.length) :=
+  addList_facts uses h0
+
+/-- **C17-T4c (greedy placement).** With torsions ≥ 0 and a non-negative empty-lattice score,
+starting from `L` lattices of at most `r` features with exactly as many free slots as features
+still to add: no lattice ever exceeds `r` (a full lattice scores `-2`, any other ≥ `-1`), at the
+end every lattice has exactly `r` features, and every added feature is in some lattice. -/
+theorem crystals_placement (t : List (List Rat)) (r L : Nat) (e : Rat) (ht : ∀ i j, 0 ≤ getT t i j) (he : 0 ≤ e)
+    (al : List Nat) (st : List (List Nat) × List (List Int)) (hL : st.1.length = L)
+    (hle : ∀ lat ∈ st.1, lat.length ≤ r) (htot : tot st.1 + al.length = L * r) :
+    (al.foldl (placeStep t r e) st).1.length = L ∧
+    (∀ lat ∈ (al.foldl (placeStep t r e) st).1, lat.length = r) ∧
+    (∀ g, (g ∈ al ∨ ∃ lat ∈ st.1, g ∈ lat) → ∃ lat ∈ (al.foldl (placeStep t r e) st).1, g ∈ lat) :=
+  place_all t r L e ht he al st hL hle htot
+
+/-- **C17-T4d (swap optimisation).** For ANY scores and cooccurrence counts and whatever the cap
+(`fuel`), the swap loop keeps the number of lattices, the size of every lattice and every placed
+feature (it exchanges one feature between two different lattices). Nothing in the code
+guarantees that a lattice ends without a repeated feature — see `CrystalsNoRepeats`. -/
+theorem crystals_swaps (t : List (List Rat)) (L fuel : Nat) (lats : List (List Nat)) (c : List (List Int)) :
+    (crySwapLoop t L fuel lats c).1.length = lats.length ∧
+    (∀ lat ∈ (crySwapLoop t L fuel lats c).1, ∃ lat' ∈ lats, lat.length = lat'.length) ∧
+    (∀ g, (∃ lat ∈ lats, g ∈ lat) → ∃ lat ∈ (crySwapLoop t L fuel lats c).1, g ∈ lat) :=
+  crySwapLoop_ok t L fuel lats c
+
+/-- **C17-T4 (Crystals).** `CrystalsSpec` holds: exact rank and every feature placed, for all
+sizes, scores (non-negative torsions, positive importance), tie orders of the argsort and swap
+caps. -/
+theorem crystals_structure : CrystalsSpec := by
+  intro n L r t lap order e fuel hrn hn ht he hpos hperm hso
+  have hlen : (importance n t lap).length = n := by simp [importance]
+  obtain ⟨uses, hu, hul, hus, hur⟩ := allocUses_ok n L r (importance n t lap) order hlen (by omega) (by omega)
+    hn hpos hperm hso
+  have hu0 : ∀ x ∈ uses, 0 ≤ x := by
+    intro x hx
+    obtain ⟨i, hi, rfl⟩ := List.getElem_of_mem hx
+    have := (hur i (by omega)).1
+    simp only [List.getD_eq_getElem?_getD, List.getElem?_eq_getElem hi, Option.getD_some] at this
+    omega
+  obtain ⟨a1, a2, a3⟩ := addList_facts uses hu0
+  have hal : (addList uses).length = L * r := by
+    have : ((addList uses).length : Int) = ((L * r : Nat) : Int) := by rw [a1, hus]
+    exact_mod_cast this
+  set init : List (List Nat) × List (List Int) :=
+    (List.replicate L [], List.replicate n (List.replicate n 0)) with hinit
+  obtain ⟨p1, p2, p3⟩ := place_all t r L e ht he (addList uses) init (by simp [hinit])
+    (by
+      intro lat hlat
+      rw [(List.mem_replicate.mp hlat).2]; simp)
+    (by simp only [hinit]; rw [tot_replicate_nil, hal]; omega)
+  set placed := (addList uses).foldl (placeStep t r e) init with hplaced
+  obtain ⟨s1, s2, s3⟩ := crySwapLoop_ok t L fuel placed.1 placed.2
+  refine ⟨(crySwapLoop t L fuel placed.1 placed.2).1, (crySwapLoop t L fuel placed.1 placed.2).2, ?_,
+    by rw [s1, p1], ?_, ?_⟩
+  · unfold crystals
+    simp only [bind, Except.bind, hu, pure, Except.pure]
+    rw [if_neg (by rw [hal]; simp)]
+  · intro l hl
+    obtain ⟨l', hl', e'⟩ := s2 l hl
+    rw [e', p2 l' hl']
+  · intro f hf
+    apply s3 f
+    apply p3 f
+    left
+    have hc : ((addList uses).count f : Int) = uses.getD f 0 := a2 f (by omega)
+    have := (hur f hf).1
+    exact List.count_pos_iff.mp (by omega)
+
+/-- "No feature is repeated inside a final Crystals lattice." NOT part of C17 (the property
+states it for the random ensemble only), NOT proved and not enforced by the code: the greedy
+placement does create repeats (`example` below: `[[1,2],[0,0]]`), the swap loop repairs one only
+when some other lattice lacks the repeated feature and holds a feature the first lattice lacks,
+and the loop is capped. No counter-example was found in 2·10⁵ runs of the real code
+(3-7 features, skewed / binary / block / random scores). -/
+def CrystalsNoRepeats : Prop :=
+  ∀ (n L r : Nat) (t : List (List Rat)) (lap : List Rat) (order : List Nat) (emptyScore : Rat) (fuel : Nat)
+    (lats : List (List Nat)) (cap : Bool),
+    r < n → n ≤ L * r → (∀ i j, 0 ≤ getT t i j) → 0 ≤ emptyScore →
+    (∀ s ∈ importance n t lap, 0 < s) → order.Perm (List.range n) →
+    sortedDesc (importance n t lap) order = true →
+    crystals n L r t lap order emptyScore fuel = .ok (lats, cap) → cap = false → ∀ l ∈ lats, l.Nodup
+
+/-- the greedy placement can repeat a feature inside a lattice (`[0,0]`); here the swap loop
+repairs it (same output as the real code on these scores). -/
+example :
+    ((addList [2, 1, 1]).foldl (placeStep [[0,0,0],[0,0,1],[0,1,0]] 2 (4/9))
+      (List.replicate 2 [], List.replicate 3 (List.replicate 3 0))).1 = [[1, 2], [0, 0]] ∧
+    crystals 3 2 2 [[0,0,0],[0,0,1],[0,1,0]] [4, 1/8, 1/8] [0, 1, 2] (4/9) = .ok ([[0, 2], [1, 0]], false) := by
+  decide +kernel
 
 /-- **F-C17-a witness.** A feature with importance score 0 (here features 2 and 3; in the
 second instance every feature) makes the use allocation divide `0/0`: the model returns the
